@@ -15,6 +15,7 @@
 //!           h:<name>:<v1>,<v2>…   header(name, values)  (`_` = empty value list; one value ⇒ the `&str` form)
 //!           ct:<mime>:<display>   content_type(mime.parse())   display = `Mime::to_string()` (opaque, from `gen`)
 //!           bs:<utf8> bb:<bytes> bj:<canonical json text> bf:<k>=<v>,…   body_string / body_bytes / body_json / body_form
+//!           bt:<zeta>:<alpha>:<f32 bits>:<wide>:<serde_json::to_vec of the typed value>   body_json(&Typed{..}) (typed, not a Value)
 //!           gs:<utf8> gb:<bytes> gj:<json>                               body(String) / body(Vec<u8>) / body(serde_json::Value)
 //!           gr:<mode>:<declared>:<c1>,<c2>…   body(Body::from_reader(reader, declared)): the reader yields the chunks one
 //!                                 after the other; mode `c` = a chain of cursors (one read never crosses a chunk boundary),
@@ -61,6 +62,8 @@ pub enum BCall {
     BodyString(String),
     BodyBytes(Vec<u8>),
     BodyJson(serde_json::Value),
+    /// `body_json(&typed)` of a TYPED value: fields in non-alphabetical declaration order, an `f32`, a 128-bit integer
+    BodyTyped(Typed),
     BodyForm(Pairs),
     GenString(String),
     GenBytes(Vec<u8>),
@@ -68,6 +71,16 @@ pub enum BCall {
     /// `body(Body::from_reader(cursor, None))`: a body whose length is not known in advance
     GenReader(char, Option<usize>, Vec<Vec<u8>>),
     Query(Pairs),
+}
+
+/// a typed JSON body: what `serde_json::to_vec` gives for it differs from any re-encoding through `serde_json::Value`
+/// (field order, shortest `f32` text, integers beyond 64 bits)
+#[derive(Debug, Clone, serde::Serialize)]
+pub struct Typed {
+    pub zeta: u32,
+    pub alpha: String,
+    pub mid: f32,
+    pub wide: u128,
 }
 
 /// name-value pairs serialised as a map (keeps order and duplicates)
@@ -199,6 +212,7 @@ macro_rules! apply_calls {
                 BCall::BodyString(s) => b.body_string(s.clone()),
                 BCall::BodyBytes(x) => b.body_bytes(x),
                 BCall::BodyJson(j) => b.body_json(j).expect("body_json"),
+                BCall::BodyTyped(t) => b.body_json(t).expect("body_json"),
                 BCall::BodyForm(p) => b.body_form(p).expect("body_form"),
                 BCall::GenString(s) => b.body(s.clone()),
                 BCall::GenBytes(x) => b.body(x.clone()),
@@ -395,6 +409,12 @@ fn parse_call(s: &str) -> Option<BCall> {
         ["bs", b] => BCall::BodyString(string(b)?),
         ["bb", b] => BCall::BodyBytes(from_hex(b)?),
         ["bj", b] => BCall::BodyJson(serde_json::from_slice(&from_hex(b)?).ok()?),
+        ["bt", z, a, m, w, _expected] => BCall::BodyTyped(Typed {
+            zeta: z.parse().ok()?,
+            alpha: string(a)?,
+            mid: f32::from_bits(u32::from_str_radix(m, 16).ok()?),
+            wide: w.parse().ok()?,
+        }),
         ["bf", ps] => BCall::BodyForm(parse_pairs(ps)?),
         ["gs", b] => BCall::GenString(string(b)?),
         ["gb", b] => BCall::GenBytes(from_hex(b)?),
@@ -877,7 +897,29 @@ fn rand_call(r: &mut Rng) -> String {
         8 => format!("ct:{}", hx(rand_mime(r))),
         9 | 10 => format!("bs:{}", hx(&rand_string_body(r))),
         11 | 12 => format!("bb:{}", to_hex(&rand_bytes(r))),
-        13 | 14 => format!("bj:{}", to_hex(&serde_json::to_vec(&rand_json(r, 0)).unwrap())),
+        13 => format!("bj:{}", to_hex(&serde_json::to_vec(&rand_json(r, 0)).unwrap())),
+        14 => {
+            // a typed value; the expected bytes come from serde_json directly (never through crux_http)
+            let mids = [0.1f32, 21.3, 1.0e-7, 3.4028235e38, -0.0, 16777217.0, 0.3, 1.1754944e-38];
+            let t = Typed {
+                zeta: r.below(1000) as u32,
+                alpha: rand_string_body(r).chars().take(12).collect(),
+                mid: if r.chance(1, 3) { f32::from_bits(r.below(0x7f80_0000) as u32) } else { *r.pick(&mids) },
+                wide: match r.below(4) {
+                    0 => u128::from(u64::MAX) + 1 + u128::from(r.below(1000)),
+                    1 => u128::MAX,
+                    _ => u128::from(r.below(1 << 40)),
+                },
+            };
+            format!(
+                "bt:{}:{}:{:08x}:{}:{}",
+                t.zeta,
+                hx(&t.alpha),
+                t.mid.to_bits(),
+                t.wide,
+                to_hex(&serde_json::to_vec(&t).unwrap())
+            )
+        }
         15 => format!("bf:{}", rand_pairs(r)),
         16 => match r.below(6) {
             0 => format!("gs:{}", hx(&rand_string_body(r))),
